@@ -71,7 +71,14 @@ def slice_points(h, curve, positions, nn=True):
     X = [p[0] for p in curve]
     Y = [p[1] for p in curve]
     for i in positions:
+        if h.sym:
+            h.c.hints['y%d' % i] = Y[i]
         Y[i] = h.real('y%d' % i, nn=nn)
         if nn and not h.sym:
             h.assume(Y[i] >= 0, 'y >= 0')
     return X, Y
+
+
+# 12-point monotone curve on which lmethod.knee(it=Refinement.original) alternates between the prefixes of 11 and 12 points
+# (knee, cutoff) = (6,12) <-> (5,10); found once by a random search, used as the base of an inline slice (C09)
+LM_CYCLE = _f([[1, '9.09'], [3, '7.89'], [5, '7.68'], [8, '7.58'], [9, '6.67'], [10, '6.47'], [12, '5.65'], [15, '3.85'], [17, '3.39'], [18, '1.84'], [19, '1.29'], [21, '0.57']])
